@@ -68,8 +68,33 @@ Example c01_example_incomplete_rejected :   (* a point whose parent is missing: 
   hier_cert Localp 1 [[0];[1];[5]] = false /\ parent_complete Localp [[0];[1];[5]] = false.
 Proof. vm_compute. split; reflexivity. Qed.
 
+(* bounded complement of the certified theorem: EVERY standard (level-sum) sparse grid of the four binary rules passes the
+   certificate, for orders 1, 2, 3 and unlimited, in one dimension up to depth 5 and in two dimensions up to depth 3;
+   the bound is part of the statement, the check is a computation inside the kernel lifted by forallb_forall *)
+Definition points1d (r : erule) (depth : Z) : list Z := map Z.of_nat (seq 0 (Z.to_nat (getNumPoints r depth))).
+Definition standard_grid (r : erule) (d : nat) (depth : Z) : list idx :=
+  let p1 := points1d r depth in
+  let tensor := match d with
+                | 1%nat => map (fun a => [a]) p1
+                | _ => flat_map (fun a => map (fun b => [a; b]) p1) p1
+                end in
+  filter (fun i => levelsum r i <=? depth) tensor.
+Definition bounded_configs : list (erule * Z * nat * Z) :=
+  flat_map (fun r => flat_map (fun o => map (fun dep => (r, o, 1%nat, dep)) [0; 1; 2; 3; 4; 5] ++ map (fun dep => (r, o, 2%nat, dep)) [0; 1; 2; 3])
+                              (match r with Semilocalp => [2; 3; -1] | _ => [1; 2; 3; -1] end))
+           [Localp; Semilocalp; Localp0; Localpb].
+
+Theorem c01_certificate_holds_on_standard_grids_bounded : forall r o d dep, In (r, o, d, dep) bounded_configs ->
+  hier_cert r o (standard_grid r d dep) = true /\ parent_complete r (standard_grid r d dep) = true.
+Proof.
+  assert (H : forallb (fun c => match c with (r, o, d, dep) => hier_cert r o (standard_grid r d dep) && parent_complete r (standard_grid r d dep) end)
+                      bounded_configs = true) by (vm_compute; reflexivity).
+  intros r o d dep Hin. rewrite forallb_forall in H. specialize (H _ Hin). cbn in H. apply andb_true_iff in H. exact H.
+Qed.
+
 Print Assumptions c01_hier_reproduces.
 Print Assumptions c01_interp_at_node.
 Print Assumptions c01_localpoly_certified.
 Print Assumptions c01_sequence.
 Print Assumptions c01_values_follow_their_points.
+Print Assumptions c01_certificate_holds_on_standard_grids_bounded.
